@@ -2282,7 +2282,9 @@ impl<T: Storage> Raft<T> {
 
         // Scan all unapplied committed entries to find a config change.
         // Paginate the scan, to avoid a potentially unlimited memory spike.
-        let low = last_commit + 1;
+        // After a restart the application may have applied (and compacted) entries beyond the
+        // restored commit index; like in `hup`, never scan below the first index.
+        let low = cmp::max(last_commit + 1, self.raft_log.first_index());
         let high = self.raft_log.committed + 1;
         let ctx = GetEntriesContext(GetEntriesFor::CommitByVote);
         if self.has_unapplied_conf_changes(low, high, ctx) {
